@@ -54,6 +54,11 @@ def build_package():
             if t1 == t2:
                 cfs += [("neg", "-a", ("neg", t1)), ("lita", "a + 1", ("lit", t1, "+", 1)), ("litb", "2 * a", ("litl", t1, "*", 2)),
                         ("litf", "a * 2.5", ("litf", t1, "*", 2.5)), ("lite", "a ** 2", ("lite", t1))]
+                # a leading minus next to ** (the two target languages give their own operators different precedences): only agreement
+                # between the languages is required here, whatever the expression means
+                if not (is_int(t1) and INT_RANGE[t1][0] == 0):      # the negation of an unsigned operand has no value in its static type
+                  cfs += [("negpow", "-a ** 2", ("xlang", t1)), ("negpowb", "-a ** b", ("xlang", t1)), ("negpowp", "(-a) ** 2", ("xlang", t1)),
+                        ("pownegp", "-(a ** 2)", ("xlang", t1)), ("negmul", "-a * b", ("xlang", t1)), ("subneg", "b - -a", ("xlang", t1)), ("negneg", "- -a", ("xlang", t1))]
             cases.append((rn, [("a", t1), ("b", t2)], cfs))
     # group 1b: operands at the edges of their types (integer pairs, + - * only: the other operators have no in-range edge results)
     ints = [t for t in NUM if is_int(t)]
